@@ -119,6 +119,10 @@ pub struct FileSpec {
     pub name: u8,
     pub len: u32,
     pub content: Content,
+    /// 0 = a regular file; 1 = the path does not exist; 2 = the path is a directory (b3sum reports it, goes on with the
+    /// other arguments and exits non-zero)
+    #[serde(default)]
+    pub bad: u8,
 }
 
 #[derive(Clone, Debug, Serialize, Deserialize, PartialEq, Eq)]
@@ -160,10 +164,16 @@ pub fn check_hash(c: &HashCase) -> Result<(), String> {
     for (k, f) in c.files.iter().take(nfiles).enumerate() {
         let n = name_bytes(f.name, k);
         let d = f.content.expand(f.len as usize);
-        std::fs::write(dir.0.join(OsString::from_vec(n.clone())), &d).map_err(|e| format!("ENGINE: write file: {}", e))?;
+        match f.bad % 3 {
+            0 => std::fs::write(dir.0.join(OsString::from_vec(n.clone())), &d).map_err(|e| format!("ENGINE: write file: {}", e))?,
+            1 => {}
+            _ => std::fs::create_dir(dir.0.join(OsString::from_vec(n.clone()))).map_err(|e| format!("ENGINE: mkdir: {}", e))?,
+        }
         names.push(n);
         datas.push(d);
     }
+    let bad: Vec<bool> = c.files.iter().take(nfiles).map(|f| f.bad % 3 != 0).collect();
+    let any_bad = bad.iter().any(|b| *b);
     let mut args: Vec<OsString> = Vec::new();
     let mut stdin: Option<Vec<u8>> = None;
     match &c.mode {
@@ -217,7 +227,10 @@ pub fn check_hash(c: &HashCase) -> Result<(), String> {
         }
     };
     let mut want: Vec<u8> = Vec::new();
-    for (n, d) in names.iter().zip(datas.iter()) {
+    for ((n, d), is_bad) in names.iter().zip(datas.iter()).zip(bad.iter()) {
+        if *is_bad {
+            continue; // nothing at all may be printed on stdout for an argument that cannot be hashed
+        }
         let digest = b3spec::root(&kf, d).xof(seek, length as usize);
         let (mn, esc) = model_name(n);
         match c.output % 4 {
@@ -227,7 +240,12 @@ pub fn check_hash(c: &HashCase) -> Result<(), String> {
             _ => want.extend_from_slice(format!("{}{}  {}\n", if esc { "\\" } else { "" }, hex(&digest), mn).as_bytes()),
         }
     }
-    ensure!(out.code == Some(0), "b3sum {:?} exited with {:?}; stderr: {}", args, out.code, String::from_utf8_lossy(&out.stderr));
+    if any_bad {
+        ensure!(out.code.is_some() && out.code != Some(0), "b3sum {:?} exited with {:?} although an argument is missing or a directory", args, out.code);
+        ensure!(!out.stderr.is_empty(), "b3sum {:?} printed no diagnostic for a missing / directory argument", args);
+    } else {
+        ensure!(out.code == Some(0), "b3sum {:?} exited with {:?}; stderr: {}", args, out.code, String::from_utf8_lossy(&out.stderr));
+    }
     if out.stdout != want {
         return Err(format!(
             "b3sum {:?} printed\n  {:?}\nexpected (spec S[{}..+{}] of each file, documented line format)\n  {:?}",
@@ -239,7 +257,7 @@ pub fn check_hash(c: &HashCase) -> Result<(), String> {
         ));
     }
     // round trip through the real --check when the flags allow it
-    if c.mode == ModeArg::None && c.length.is_none() && seek <= u64::MAX - 32 && (c.output % 4 == 0 || c.output % 4 == 2) {
+    if !any_bad && c.mode == ModeArg::None && c.length.is_none() && seek <= u64::MAX - 32 && (c.output % 4 == 0 || c.output % 4 == 2) {
         let mut cargs: Vec<OsString> = vec!["--check".into()];
         if c.seek.is_some() {
             cargs.push("--seek".into());
@@ -281,12 +299,59 @@ pub fn classify_hash(c: &HashCase) -> Classes {
         .tag(hostile, "hostile-file-name")
         .tag(c.files.iter().any(|f| f.len >= 16384), "file>=16KiB(mmap)")
         .tag(c.files.iter().any(|f| f.len == 0), "empty-file")
+        .tag(c.files.iter().any(|f| f.bad % 3 == 1), "missing-argument-among-files")
+        .tag(c.files.iter().any(|f| f.bad % 3 == 2), "directory-argument-among-files")
+}
+
+// ---------------------------------------------------------------------------
+// files of this system that cannot be memory-mapped or have no length
+// ---------------------------------------------------------------------------
+#[derive(Clone, Debug, Serialize, Deserialize)]
+pub struct SpecialCase {
+    pub path: String,
+    /// 0 = default flags, 1 = --no-mmap, 2 = --num-threads 1, 3 = --tag --length 100
+    pub flags: u8,
+}
+
+pub fn check_special(c: &SpecialCase) -> Result<(), String> {
+    let p = std::path::Path::new(&c.path);
+    let before = match std::fs::read(p) {
+        Ok(b) => b,
+        Err(_) => return Ok(()), // not present / readable here
+    };
+    let dir = TempDir::new()?;
+    let mut args: Vec<OsString> = Vec::new();
+    let mut n = 32usize;
+    match c.flags % 4 {
+        1 => args.push("--no-mmap".into()),
+        2 => {
+            args.push("--num-threads".into());
+            args.push("1".into());
+        }
+        3 => {
+            args.push("--tag".into());
+            args.push("--length".into());
+            args.push("100".into());
+            n = 100;
+        }
+        _ => {}
+    }
+    args.push(c.path.clone().into());
+    let out = run(&dir.0, &args, None)?;
+    if std::fs::read(p).unwrap_or_default() != before {
+        return Ok(()); // content is not stable on this system: no verdict
+    }
+    let digest = hex(&b3spec::root(&b3spec::KeyFlags::hash(), &before).xof(0, n));
+    let want = if c.flags % 4 == 3 { format!("BLAKE3 ({}) = {}\n", c.path, digest) } else { format!("{}  {}\n", digest, c.path) };
+    ensure!(out.code == Some(0), "b3sum {:?} exited with {:?}; stderr: {}", args, out.code, String::from_utf8_lossy(&out.stderr));
+    ensure!(out.stdout == want.as_bytes(), "b3sum {:?} ({} bytes, cannot be memory-mapped or has no length) printed {:?}, expected {:?}", args, before.len(), String::from_utf8_lossy(&out.stdout), want);
+    Ok(())
 }
 
 fn file_strategy(tier: Tier) -> BoxedStrategy<FileSpec> {
     let max = tier.pick(200_000u32, 4_000_000u32);
-    (0u8..NAMES.len() as u8, prop_oneof![4 => Just(0u32), 6 => 1u32..=3000, 6 => 16380u32..=16390, 4 => 0u32..=70_000, 2 => 0u32..=max, 1 => (1u32 << 20)..=(3u32 << 20)], gen::content())
-        .prop_map(|(name, len, content)| FileSpec { name, len, content })
+    (0u8..NAMES.len() as u8, prop_oneof![4 => Just(0u32), 6 => 1u32..=3000, 6 => 16380u32..=16390, 4 => 0u32..=70_000, 2 => 0u32..=max, 1 => (1u32 << 20)..=(3u32 << 20)], gen::content(), prop_oneof![14 => Just(0u8), 1 => Just(1u8), 1 => Just(2u8)])
+        .prop_map(|(name, len, content, bad)| FileSpec { name, len, content, bad })
         .boxed()
 }
 
@@ -659,11 +724,29 @@ pub fn subs() -> Vec<Box<dyn DynSub>> {
     vec![
         Box::new(PropSub::<HashCase> {
             name: "hashing-cli",
-            rule: "proptest: the real b3sum binary on 1-4 files (hostile names incl. spaces, two spaces, backslash, LF, CR, ') = ', 'BLAKE3 (', non-ASCII, invalid UTF-8, U+FFFD; sizes 0, small, 16 KiB+-, <=200 KB quick / 4 MB thorough) x {none, --keyed with 32-byte or wrong-length key on stdin, --derive-key} x --length 0..300 x --seek from the 64*K lattice x --no-mmap x --num-threads {1,2,5} x {default, --no-names, --tag, --raw}; oracle: stdout is byte-for-byte the documented line format around spec S[seek..seek+length] (hex lower-case or raw), exit 0; wrong-length keys are refused; where the flags allow, the output is fed back to the real `b3sum --check` (must accept every representable path, must fail otherwise); non-trivial = >=2 non-default flags",
+            rule: "proptest: the real b3sum binary on 1-4 arguments (one in sixteen missing or a directory: a diagnostic, non-zero exit, and nothing on stdout for it, the others hashed as usual; hostile names incl. spaces, two spaces, backslash, LF, CR, ') = ', 'BLAKE3 (', non-ASCII, invalid UTF-8, U+FFFD; sizes 0, small, 16 KiB+-, <=200 KB quick / 4 MB thorough) x {none, --keyed with 32-byte or wrong-length key on stdin, --derive-key} x --length 0..300 x --seek from the 64*K lattice x --no-mmap x --num-threads {1,2,5} x {default, --no-names, --tag, --raw}; oracle: stdout is byte-for-byte the documented line format around spec S[seek..seek+length] (hex lower-case or raw), exit 0; wrong-length keys are refused; where the flags allow, the output is fed back to the real `b3sum --check` (must accept every representable path, must fail otherwise); non-trivial = >=2 non-default flags",
             cases: (1_600, 40_000),
             strategy: hash_strategy,
             classify: classify_hash,
             check: check_hash,
+            known: None,
+            crumb: false,
+        }),
+        Box::new(crate::runner::EnumSub::<SpecialCase> {
+            name: "special-files-cli",
+            rule: "enumeration: the real b3sum on files of this system that cannot be memory-mapped or have no length (/sys/kernel/btf/vmlinux, /proc/kallsyms, /proc/version, /sys/kernel/notes; used when present with stable content) x {default, --no-mmap, --num-threads 1, --tag --length 100}; oracle: the documented line around the spec digest of the bytes read() delivers",
+            items: |_| {
+                let mut v = Vec::new();
+                for p in ["/sys/kernel/btf/vmlinux", "/proc/kallsyms", "/proc/version", "/sys/kernel/notes"] {
+                    for flags in 0..4u8 {
+                        v.push(SpecialCase { path: p.to_string(), flags });
+                    }
+                }
+                Box::new(v.into_iter())
+            },
+            classify: |c| Classes::new(true).tag(true, "special-path").tag(c.flags % 4 == 1, "--no-mmap"),
+            check: check_special,
+            exhaustive: false,
             known: None,
             crumb: false,
         }),
